@@ -20,6 +20,13 @@ func runC19(x *simkit.Exec) {
 		algo = receive.AlgorithmHashmod
 	}
 	eps := genEndpoints(x, "", n, zones)
+	if zones > 1 && x.Bool("some-without-az", 1, 8) { // endpoints without a zone next to zoned ones: "" is then just another zone
+		for i := range eps {
+			if eps[i].AZ == zoneNames[0] {
+				eps[i].AZ = ""
+			}
+		}
+	}
 	rf := x.Range("rf", 1, n)
 	if x.Bool("rf-above-n", 1, 20) {
 		rf = n + 1
@@ -61,14 +68,16 @@ func runC19(x *simkit.Exec) {
 		defer c.close()
 		describe := func(gen int) string {
 			b, _ := json.Marshal(gens[gen])
-			return fmt.Sprintf("algorithm=%s replication_factor=%d zone layout %s\nconfig: %s", algo, rf, layoutString(gens[gen][0].Endpoints), b)
+			return fmt.Sprintf("NewMultiHashring(algorithm=%s, replicationFactor=%d, cfg) with zone layout %s\ncfg: %s", algo, rf, layoutString(gens[gen][0].Endpoints), b)
 		}
 		c.onLoad = func(nd *simNode) {
 			switch {
 			case nd.hang != nil:
 				_, sizes := zoneSizes(gens[nd.gen][0].Endpoints)
 				sig := "ketama:unbalanceable-zones:rf>zone-capacity"
-				if balanceable(sizes, rf) {
+				if rf > len(gens[nd.gen][0].Endpoints) {
+					sig = "ketama:rf>endpoints"
+				} else if balanceable(sizes, rf) {
 					sig = "ketama:no-progress:balanceable-layout"
 				}
 				s.Violate("hashring-build-terminates", sig,
